@@ -102,13 +102,15 @@ Definition check_asn1_integer (bs : bytes) : bool :=
 
 Definition two64 : N := 18446744073709551616.
 Definition two63 : N := 9223372036854775808.
+(* the low 64 bits (= x mod 2^64, see C21Proofs.lo64_mod; N.land is much cheaper to run) *)
+Definition lo64 (x : N) : N := N.land x 18446744073709551615.
 
 (* asn1Signed: accumulate in a 64-bit register, shift up and (arithmetically) down *)
 Definition asn1_signed (bs : bytes) : option Z :=
   if 8 <? blen bs then None else
-  let u := be_val bs mod two64 in
+  let u := lo64 (be_val bs) in
   let sh := 64 - 8 * blen bs in
-  let x := (u * 2 ^ sh) mod two64 in
+  let x := lo64 (u * 2 ^ sh) in
   let sx := if x <? two63 then Z.of_N x else (Z.of_N x - Z.of_N two64)%Z in
   Some (Z.shiftr sx (Z.of_N sh)).
 
@@ -118,7 +120,7 @@ Definition asn1_unsigned (bs : bytes) : option N :=
   | b0 :: _ =>
       if (9 <? blen bs) || ((blen bs =? 9) && negb (b0 =? 0)) then None else
       if 128 <=? b0 then None else
-      Some (be_val bs mod two64)
+      Some (lo64 (be_val bs))
   end.
 
 (* readASN1BigInt: two's complement of arbitrary length *)
